@@ -225,7 +225,6 @@ func stdInterp(m *model.Model) *cdai.Interp {
 	it.Inline["makeAcc"] = true
 	it.Inline["umax32"] = true
 	it.Inline["NewDecimal"] = true
-	it.Inline["limitExp"] = true
 	return it
 }
 
